@@ -1008,7 +1008,8 @@ def _alpha(e, localnames) -> str:
         def visit_Name(self, n):
             return ast.copy_location(ast.Name(id="_", ctx=n.ctx), n) if n.id in localnames and n.id != "self" else n
     import copy as _copy
-    return src(R().visit(_copy.deepcopy(e)))
+    from ..model import clone as _clone
+    return src(R().visit(_clone(e)))
 
 
 def _seed_dependent_elements(e, module_kind: str) -> Optional[str]:
